@@ -202,7 +202,24 @@ def c15(tier):
                     "catalogue names and wanted names of <= 3 printable characters, any directory characters",
                     ["dfs/dfs_catalog.cc:CatalogEntry::has_name", "CatalogEntry::name", "stringutil::rtrim", "case_insensitive_equal"],
                     unwind=10, unwindset=[("X_strlen", 64)], weight_gb=4)]
+    shapes = [(1, 1), (2, 2), (3, 2)] if tier == "quick" else [(1, 1), (1, 2), (2, 1), (2, 2), (3, 1), (3, 2), (3, 3), (4, 2), (4, 3)]
+    if os.environ.get("VF_WIP"): obs += [ob_wildcard("C15", w, n) for w, n in shapes]      # work in progress: not part of the registered check yet
     return obs, dict(assumptions=CXX_ASSUME)
+
+def ob_wildcard(pid, wlen, nlen):
+    return X.cxx_ob(pid, "wildcard.W%dN%d" % (wlen, nlen), "w_afsp.cc", "h_wildcard",
+                    "AFSPMatcher (make_unique + matches) against the documented semantics: # = one character, * = any run, neither matching '.', letters ignore case, "
+                    "every other character (all regular-expression metacharacters included) matches only itself; omitted drive/directory default to --drive 0 --dir $",
+                    "every wildcard of exactly %d printable characters x every entry with a %d-character name and any directory character (names/directories not containing . : # *)" % (wlen, nlen),
+                    ["dfs/afsp.cc:AFSPMatcher::AFSPMatcher", "AFSPMatcher::matches", "convert_wildcard_into_extended_regex", "extend_wildcard", "qualify", "transform_string_with_regex",
+                     "dfs/regularexpression.h:RegularExpression", "dfs/driveselector.cc:VolumeSelector::parse"],
+                    unwind=10, unwindset=[("X_strlen", 64), ("vf_string", 50), ("X_regcomp.0", 26), ("X_regcomp.1", 6), ("vrx_streq", 66), ("X_regexec", 26), ("vrx_", 26), ("X_regerror", 14),
+                                          ("h_wildcard", 8), ("glob", 8), ("X_strtol", 26), ("range_initialize", 98), ("convert_wildcard", 12), ("count_if", 50), ("realloc_insert", 8)],
+                    defines=("NDEBUG", "VF_STRMODEL", "VF_STRCAP=48", "WLEN=%d" % wlen, "NLEN=%d" % nlen), weight_gb=6, timeout=1500,
+                    noop_re=IO_CUT + [r"^_ZNSt6vectorIcSaIcEE17_M_realloc_insertIJ(RKc|c)EEE", r"^_ZNSt6vectorIcSaIcEE19_M_range_initializeIPKcEE"], clang_extra=["-fno-inline", "-DVF_INSTANTIATE_STRING"],
+                    stubs=[STRMODEL_NOTE, "glibc regcomp/regexec/regerror/regfree replaced by the restricted POSIX ERE model in stubs/vf_stubs.c (fixed canonicalisation patterns + generated "
+                           "element lists; any other construct is reported as unsupported); native replay and translator validation use the real glibc regex",
+                           "std::vector<char> initial storage / growth replaced by a fixed-capacity model (stubs/vf_stubs.c)"])
 
 # the iostream MODEL's own text building (number formatting, padding) is cut where only the safety of the code under test matters
 STRMODEL_NOTE = "std::string replaced by the fixed-capacity value model harness/cxx/strmodel.h for the encoding (capacity overflow is asserted); the native replay and the translator validation run the same harness on the real std::string"
